@@ -26,7 +26,7 @@ def bad(node, why):
 
 RESERVED = {'at', 'end', 'from', 'if', 'then', 'else', 'match', 'with', 'do', 'let', 'have', 'fun', 'in', 'instance', 'structure', 'def',
             'theorem', 'open', 'namespace', 'section', 'variable', 'import', 'where', 'deriving', 'class', 'show', 'by', 'mutual', 'macro',
-            'syntax', 'notation', 'local', 'private', 'protected', 'partial', 'unsafe', 'universe', 'example', 'abbrev', 'inductive',
+            'syntax', 'notation', 'prefix', 'infix', 'infixl', 'infixr', 'postfix', 'out', 'msgPrefix', 'local', 'private', 'protected', 'partial', 'unsafe', 'universe', 'example', 'abbrev', 'inductive',
             'extends', 'for', 'unless', 'try', 'catch', 'finally', 'mut', 'break', 'continue', 'return', 'nomatch', 'nofun', 'Type', 'Sort',
             'Prop', 'db', 'Mo', 'e', 'Self', 'fileContents', 'Parser', 'begin', 'using', 'exact', 'calc', 'this', 'suffices', 'obtain', 'true', 'false', 'none', 'some'}
 
@@ -197,6 +197,10 @@ class Stmts:
     CAUGHT = {}
     DUPLICATE_ON_RETURN = False     # `return` on some paths of a non-terminating branch: copy the continuation into both branches
 
+    def lvar(self, v):
+        """Lean name of a Python variable"""
+        return self.STATE_L if v == self.STATE else lname(v)
+
     def tmp(self):
         self.ntmp += 1
         return f'tmp{self.ntmp}'
@@ -306,7 +310,7 @@ class Stmts:
             if ty is None: ty = env.get(v, self.T.NONE)
             types.append(ty)
         def final(env2):
-            vals = [self.T.coerce(lname(v), env2[v], t, node) for v, t in zip(vars_, types)]
+            vals = [self.T.coerce(self.lvar(v), env2[v], t, node) for v, t in zip(vars_, types)]
             return ('raw', '.ok ' + tuple_pat(vals))
         trees = [br(final) for br in branches]
         views = {}
@@ -364,7 +368,7 @@ class Stmts:
         env2 = dict(env)
         for v, t in zip(vars_, types): env2[v] = t
         env2.update(views)
-        return self.wrap(B, joinc(tuple_pat([lname(v) for v in vars_]), mk(trees[0], trees[1]), self.T.tuple_type(types), go(env2)))
+        return self.wrap(B, joinc(tuple_pat([self.lvar(v) for v in vars_]), mk(trees[0], trees[1]), self.T.tuple_type(types), go(env2)))
 
     def _seq(self, stmts, env, k, live):
         """a nested block; k=None: the block terminates by itself"""
@@ -388,17 +392,23 @@ class Stmts:
         for v, t in zip(vars_, types): env2[v] = t
         env2.update(views)
         ty = self.T.tuple_type(types)
-        return joinc(tuple_pat([lname(v) for v in vars_]), ('tryexpr', trees[0], self.CAUGHT[h.type.id], trees[1], ty), ty, go(env2))
+        return joinc(tuple_pat([self.lvar(v) for v in vars_]), ('tryexpr', trees[0], self.CAUGHT[h.type.id], trees[1], ty), ty, go(env2))
 
     def loop_vars(self, s, env, live, targets):
         """the loop-carried variables of `for …: body` (assigned in the body and read in a later iteration or after the loop)"""
         assigned = assigned_names(s.body, self.writes_map)
         carried = read_before_write(s.body) | live
-        vars_ = sorted(v for v in assigned if v in carried and v not in targets)
+        nested = set()          # targets of nested loops: written before read in every iteration of their own loop
+        for n in s.body:
+            for x in ast.walk(n):
+                if isinstance(x, ast.For):
+                    nested |= {t.id for t in ast.walk(x.target) if isinstance(t, ast.Name)}
+        vars_ = sorted(v for v in assigned if v in carried and v not in targets and not (v in nested and v not in live))
         for v in vars_:
             if v not in env: bad(s, f'{v} is assigned in the loop and used outside one iteration but not bound before the loop')
         for t in targets:
-            if t in live: bad(s, 'loop variable used after the loop')
+            # (a loop variable read after the loop without being bound before it is an unknown identifier in the output: the build fails)
+            if t in live and t in env: bad(s, 'loop variable used after the loop')
         return vars_
 
     def check_loop_types(self, s, env_body, vars_, types):
@@ -429,7 +439,7 @@ class Stmts:
         env_body = dict(env); env_body[ivar] = self.T.INT
         self.check_loop_types(s, env_body, vars_, types)
         def final(env2):
-            return ('raw', '.ok ' + tuple_pat([self.T.coerce(lname(v), env2[v], t, s) for v, t in zip(vars_, types)]))
+            return ('raw', '.ok ' + tuple_pat([self.T.coerce(self.lvar(v), env2[v], t, s) for v, t in zip(vars_, types)]))
         body = self._seq(s.body, env_body, final, set(vars_))
-        pat = tuple_pat([lname(v) for v in vars_])
+        pat = tuple_pat([self.lvar(v) for v in vars_])
         return self.wrap(B, joinc(pat, ('forexpr', pat, atom(n), lname(ivar), body, pat), self.T.tuple_type(types), go(dict(env))))
